@@ -3,13 +3,14 @@ import json
 import os
 import time
 
-from .model import AnalysisError, stmt_key
+from .model import AnalysisError, stmt_key, shape_key
 
 VERIF = os.path.dirname(os.path.dirname(os.path.abspath(__file__)))
 
 
 class Finding:
-    def __init__(self, prop, rule, construct, statement, where, message, witness=None):
+    def __init__(self, prop, rule, construct, statement, where, message, witness=None, shape=None):
+        self.shape = shape if shape is not None else statement
         self.prop = prop
         self.rule = rule
         self.construct = construct
@@ -24,7 +25,7 @@ class Finding:
 
     def as_dict(self):
         return {"property": self.prop, "rule": self.rule, "construct": self.construct,
-                "statement": self.statement, "where": self.where, "message": self.message,
+                "statement": self.statement, "shape": self.shape, "where": self.where, "message": self.message,
                 "witness": self.witness}
 
 
@@ -72,7 +73,8 @@ class Context:
 
     def violation(self, rule, construct, node_or_text, where, message, witness=None, desc=None):
         st = node_or_text if isinstance(node_or_text, str) else stmt_key(node_or_text)
-        f = Finding(self.prop, rule, construct, st, where, message, witness)
+        sh = node_or_text if isinstance(node_or_text, str) else shape_key(node_or_text)
+        f = Finding(self.prop, rule, construct, st, where, message, witness, shape=sh)
         # de-duplicate
         for g in self.findings:
             if g.key() == f.key():
@@ -110,9 +112,9 @@ def match_known(finding, known):
     for k in known:
         if k.get("status") != "known":
             continue
-        if k["property"] == finding.prop and k["rule"] == finding.rule and \
-                k["construct"] == finding.construct and k["statement"] == finding.statement:
-            return k
+        if k["property"] == finding.prop and k["rule"] == finding.rule and k["construct"] == finding.construct:
+            if ("shape" in k and k["shape"] == finding.shape) or ("shape" not in k and k["statement"] == finding.statement):
+                return k
     return None
 
 
